@@ -41,11 +41,12 @@ def family(tier):
     for order in (("ctl", "blob"), ("blob", "ctl")):
         for variant in ("blob", "text"):
             fam.append(dict(variant=variant, vec_enabled=True, grp_enabled=True, depth=1, ndev=2, ngroups=2, connect=order))
+            fam.append(dict(variant=variant, vec_enabled=True, grp_enabled=True, depth=1, ndev=1, ngroups=2, connect=order, announce=True))
     return fam
 
 
 def deployment_of(p):
-    return DP.deployment(**{k: v for k, v in p.items() if k not in ("write_veto", "connect", "dead_peer")})
+    return DP.deployment(**{k: v for k, v in p.items() if k not in ("write_veto", "connect", "dead_peer", "announce")})
 
 
 def shards(tier, seed):
@@ -119,7 +120,14 @@ class Run:
                 if len(self.specs) >= 2 and self.kind != "blob":
                     self.observer = self.w.devices[1].snoop_device("DEV0")
                     self.w.settle()
-                self.client = self.w.make_client(p.get("connect"))
+                between = None
+                if p.get("connect") and p.get("announce"):
+                    # while only one of the client's connections is up, the driver (re-)announces its property
+                    def between():
+                        g1_ = DM.live_group(self.w.devices[0], self.specs[0]["groups"][0])
+                        g1_.vectors["t"].enabled = True
+
+                self.client = self.w.make_client(p.get("connect"), between)
                 self.handshaken = {s["name"] for s in self.specs}
         except BaseException:
             self.w.close()
